@@ -24,3 +24,8 @@ package signature
 //@     invariant forall i2 int, j2 int :: 0 <= i2 && i2 < it#0 - 1 && 0 <= j2 && j2 < len(trustedCerts) ==> !RawEq(trustedCerts[j2], signerInfo.CertificateChain[i2])
 //@     invariant forall j3 int :: 0 <= j3 && j3 < it ==> !RawEq(trustedCerts[j3], cert)
 //@     invariant 0 <= it#0 - 1 && it#0 - 1 < len(signerInfo.CertificateChain) && cert == signerInfo.CertificateChain[it#0 - 1]
+
+//@ func (*SignRequest).Context(r)
+//@   requires r != nil
+//@   ensures [nonnil] result != nil
+//@   pure
